@@ -11,6 +11,7 @@ import (
 
 	"github.com/saucelabs/forwarder/header"
 	"github.com/saucelabs/forwarder/verifharness/core"
+	"github.com/saucelabs/forwarder/verifharness/rig"
 )
 
 func init() { core.Register("C16", core.Scenario{Run: Run, Replay: Replay}) }
@@ -287,6 +288,28 @@ func knownClass(rules []header.Header, m map[string][]string) string {
 	return ""
 }
 
+// stepClass decides, from one rule and the map it is applied to, whether the step falls in a recorded
+// class (F9a/F9c/F9d).
+func stepClass(r header.Header, before http.Header, inputHadRaw bool) string {
+	if r.Action == header.RenameCase && http.CanonicalHeaderKey(r.Name) == r.Name {
+		return "rename-canonical"
+	}
+	for k := range before {
+		if http.CanonicalHeaderKey(k) == k {
+			continue
+		}
+		related := strings.EqualFold(k, r.Name) ||
+			(r.Action == header.RemoveByPrefix && len(r.Name) <= len(k) && strings.EqualFold(k[:len(r.Name)], r.Name))
+		if related {
+			if inputHadRaw {
+				return "raw-key"
+			}
+			return "rule-after-rename"
+		}
+	}
+	return ""
+}
+
 func checkApply(ctx *core.Ctx, ac applyCase) {
 	var rules []header.Header
 	for _, hx := range ac.Rules {
@@ -345,6 +368,31 @@ func checkApply(ctx *core.Ctx, ac applyCase) {
 	if implS != modelS {
 		ctx.Disagree("Apply = Model.C16.applyRules", ac, implS, modelS)
 	}
+	// the documented meaning, rule by rule, on what the implementation does at each step
+	inputHadRaw := false
+	for k := range ac.Map {
+		if http.CanonicalHeaderKey(k) != k {
+			inputHadRaw = true
+		}
+	}
+	step := http.Header{}
+	for k, vs := range ac.Map {
+		step[k] = append([]string(nil), vs...)
+	}
+	for i := range rules {
+		before := encMap(step)
+		cls := stepClass(rules[i], step, inputHadRaw)
+		func() {
+			defer func() { recover() }()
+			rules[i].Apply(step)
+		}()
+		if ans := ctx.Model.MustAsk("C16", "holdsstep", ac.Rules[i], before, encMap(step)); ans != "true" {
+			ctx.SpecFail("each rule does what its syntax says (values and spelling)", cls,
+				map[string]any{"kind": "apply", "rules_hex": []string{ac.Rules[i]}, "map": decMap(before), "via": "Apply"},
+				canonMap(map[string][]string(step)), fmt.Sprintf("step %d of %d: %s", i+1, len(rules), ans))
+			break
+		}
+	}
 	hold := ctx.Model.MustAsk("C16", "holds", core.JoinList(ac.Rules), encMap(ac.Map), encMap(obs))
 	if hold != "true" {
 		class := knownClass(rules, ac.Map)
@@ -390,9 +438,12 @@ func Run(ctx *core.Ctx) {
 			ctx.Sample(ac)
 		}
 	}
+	// wiring of the three lists to message kinds, through the real binary (all 8 on/off combinations)
+	runAllDispatch(ctx)
 }
 
 func Replay(ctx *core.Ctx, raw json.RawMessage) {
+	defer rig.RemoveBinary()
 	var k struct {
 		Kind string `json:"kind"`
 	}
@@ -406,6 +457,10 @@ func Replay(ctx *core.Ctx, raw json.RawMessage) {
 		var ac applyCase
 		json.Unmarshal(raw, &ac)
 		checkApply(ctx, ac)
+	case "dispatch":
+		var dc dispatchCase
+		json.Unmarshal(raw, &dc)
+		runDispatch(ctx, dc)
 	default:
 		core.Fatalf("C16: unknown case kind %q", k.Kind)
 	}
